@@ -24,7 +24,7 @@ func (w *World) digestVector(n *Node, key *Node) ([4]atree.Digest, error) {
 		b = atree.NewDefaultDigesterBuilder()
 		b.SetSeed(n.Map.Seed(), 0x1BD11BDAA9FC1A22)
 	}
-	cb := &Callbacks{}
+	cb := &Callbacks{HipClasses: w.cb.HipClasses}
 	d, err := b.Digest(cb.HashInput, scalarValue(key))
 	if err != nil {
 		return out, err
@@ -784,7 +784,11 @@ func runC13(c *CaseCtx) *CaseResult {
 	cc.CommitEvery = 0
 	if kind == "map" {
 		switch c.Case / 2 % 4 {
-		case 0: // default digester
+		case 0: // default digester; half of these cases with a hash-input provider that covers only part of the key
+			// (keys of one class collide on all levels and must be enumerated in insertion order)
+			if c.Case%16 < 8 {
+				cc.HipClasses = uint64(8 + r.Intn(30))
+			}
 		case 1:
 			cc.Dig = &DigProfile{Alpha: [4]uint64{uint64(10 + r.Intn(40)), 3, 2, 0}, Salt: uint64(r.Int63())}
 		case 2:
